@@ -612,6 +612,10 @@ def mk_and(a, b):
 
 
 def mk_cmp(op, a, b):
+    # == and != are symmetric: constants to the right, otherwise a fixed order
+    if op in ("==", "!=") and a[0] != "enum" and b[0] != "enum":
+        if (a[0] == "c" and b[0] != "c") or (a[0] != "c" and b[0] != "c" and repr(b) < repr(a) and not (has(a, "bv") or has(b, "bv") or has(a, "idx") or has(b, "idx"))):
+            a, b = b, a
     # a member of an Enum class supplied by a rule against a member spelled in the code / a constant (str-valued enums)
     if op in ("==", "!=", "is", "is not") and (a[0] == "enum" or b[0] == "enum"):
         e, o = (a, b) if a[0] == "enum" else (b, a)
